@@ -363,6 +363,8 @@ class Evaluator:
                 return Struct(ops)
             if kind[0] == "array":
                 return tuple(ops)
+            if kind[0] == "closure":
+                return Struct(ops)      # the captured variables, in capture order
             raise Unsupported("aggregate %s" % kind[0])
         raise Unsupported("rvalue %s" % k)
 
@@ -382,6 +384,8 @@ class Evaluator:
         # local function with a body
         f2 = self.prog.fn(name) or self.prog.fn(c["fn"])
         if f2 is not None and len(f2.blocks) < 400:
+            if f2.kind == "Closure" and short.startswith("core::ops::function::Fn") and len(args) == 2 and isinstance(args[1], tuple):
+                args = [args[0]] + list(args[1])    # rust-call ABI: the argument tuple is spread over the closure's parameters
             return self.call_fn(f2, args)
         if short in ("core::cmp::PartialEq::eq", "core::cmp::PartialEq::ne"):
             a, b = self.deref_val(args[0]), self.deref_val(args[1])
